@@ -261,7 +261,8 @@ def _c16_miri(prop, tier, seed, rundir, merged, env, root, log):
     import os, subprocess, time
     mdir = os.path.join(root, "miri")
     menv = dict(env, CARGO_TARGET_DIR=os.path.join(root, "target", "miri"))
-    workloads = ["cell-add", "readers", "helpers"] if tier == "quick" else ["cell-add", "cell-mul", "cell-or", "cell-pow", "cell-assign", "helpers", "code", "readers"]
+    workloads = (["cell-add", "readers", "helpers", "failing"] if tier == "quick"
+                 else ["cell-add", "cell-mul", "cell-or", "cell-pow", "cell-assign", "helpers", "code", "readers", "readers-struct", "failing", "run-state"])
     nseeds = 2 if tier == "quick" else 16
     lo = (seed * 97) % 100000
     base = ["cargo", "+nightly", "miri", "run", "-q", "--"]
@@ -315,8 +316,8 @@ PROPS["C16"] = {
     "rule": "short concurrent runs in child processes (so a stall can be inspected and killed): T in {2,3,4,8,16} threads released together by a barrier, with optional yields injected between interpreter steps (never inside a cell's critical section). "
             "Scenarios: (cell) one host-built `mut int` shared by all threads, each applying one of the 12 assignment operators N times through the same parsed function and returning the values its assignments yielded - operands are chosen so that updates commute and "
             "each update is a bijection (+= 1, -= 1, *= 3, ^= unique bit, |= own bit, &= clear own bit, <<= 1, >>= 1, /= 3 on 3^39, **= 3 on odd values, %= m, = unique value), so atomicity <=> final content is the closed form and the multiset of yielded values is the sequential chain; "
-            "(isolated) 10 functions using every lazily initialised helper (map, filter, iterate, type filter, reducers, modules, stdlib) first touched concurrently, results compared with the sequential run; (code) one parsed Code executed from all threads; "
-            "(readers) half the threads print a cell that contains itself and a cell nested in a cell while the others assign. A run that makes no progress is inspected with `gdb thread apply all bt`: threads parked in RwLock acquisition = deadlock (violation), otherwise inconclusive. "
+            "(isolated) 15 functions using every lazily initialised helper (map, filter, iterate, type filter, reducers, modules, stdlib) first touched concurrently, results compared with the sequential run; (code) one parsed Code executed from all threads; "
+            "(readers) half the threads print a cell that contains itself (through an array, a tuple, a struct or another cell) and a cell nested in a cell while the others assign; (failing) threads increment / apply failing compound assignments (/= 0, %= 0, <<= 64, >>= -1, **= -1) / read one cell: every failure reports its documented error and leaves the cell as it was; the isolated set also holds functions whose run creates state (default cell of an exhausted `? mut int`, closure counters, iterator positions). A run that makes no progress is inspected with `gdb thread apply all bt`: threads parked in RwLock acquisition = deadlock (violation), otherwise inconclusive. "
             "Plus Miri (cargo +nightly miri run, several schedule seeds) on miniature versions of the same scenarios: data races, deadlocks, UB in the dependency code actually executed. distinct_nontrivial = distinct (scenario, threads, size, yield, run) executions.",
     "assumptions": COMMON_ASSUME + ["schedules explored are those the OS scheduler, the injected yields and Miri's seeds produce - a sample, not all interleavings",
                                     "a stall is decided by the thread dump (all blocked in lock acquisition), never by elapsed time alone"],
